@@ -1,5 +1,217 @@
-import PySMT.Impl.Manager
+import PySMT.Proofs.C04Width
+/-!
+# C04 — hash-consing: one object per structure, faithful accessors, faithful copies
+
+Model: `PySMT/Impl/Manager.lean`.  `Reachable s` = `s` is the state of a manager after *any*
+finite history of programs over the primitives (`create_node`, `Int`, `Real`, `String`,
+`get_or_create_symbol`, `_fresh_guess`, `TypeManager.normalize`), successful or failing.
+All theorems below are for every reachable state: no bound on the history.
+-/
 namespace PySMT.Props.C04
 open PySMT.Manager
-theorem init_next : Mgr.init.nextId = 3 := rfl
+
+/-- one id ⇒ one content (no two structures share an object) -/
+theorem table_inj {s : Mgr} (h : Reachable s) {c₁ c₂ : Content} {i : Nid}
+    (h₁ : (c₁, i) ∈ s.formulae) (h₂ : (c₂, i) ∈ s.formulae) : c₁ = c₂ :=
+  h.inv.tinj _ _ _ h₁ h₂
+
+/-- one content ⇒ one id (no structure has two objects) -/
+theorem table_fun {s : Mgr} (h : Reachable s) {c : Content} {i₁ i₂ : Nid}
+    (h₁ : (c, i₁) ∈ s.formulae) (h₂ : (c, i₂) ∈ s.formulae) : i₁ = i₂ :=
+  h.inv.tfun _ _ _ h₁ h₂
+
+/-- In a reachable state two nodes are the same object exactly when their unfolded trees
+    (operator, parameters, children, recursively) are equal — whatever route created them. -/
+theorem id_eq_iff_struct_eq {s : Mgr} (h : Reachable s) {i j : Nid}
+    (i0 : 0 < i) (i1 : i < s.nextId) (j0 : 0 < j) (j1 : j < s.nextId) :
+    i = j ↔ s.struct i = s.struct j :=
+  (struct_eq_iff h.inv i0 i1 j0 j1).symm
+
+/-- Two construction histories: build tree `t₁` bottom-up, run an arbitrary program `p`
+    (any unrelated constructions, also failing ones), build `t₂`.  Both succeed and return the
+    same id iff the trees are equal. -/
+theorem create_same_iff_struct {α : Type} {s₀ : Mgr} (h₀ : Reachable s₀) (t₁ t₂ : Term)
+    (w₁ : t₁.WF) (w₂ : t₂.WF) (p : Prog α) :
+    ∃ i₁ s₁ i₂ s₃, (buildT t₁).run s₀ = (.ok i₁, s₁) ∧ (buildT t₂).run (p.run s₁).2 = (.ok i₂, s₃) ∧
+      (i₁ = i₂ ↔ t₁ = t₂) :=
+  build_same_iff h₀ t₁ t₂ w₁ w₂ p
+
+/-- `Term.WF` is what every existing node satisfies; re-creating the tree of an existing node
+    returns that node (no duplicate can be made). -/
+theorem recreate_existing {s : Mgr} (h : Reachable s) {i : Nid} (i0 : 0 < i) (i1 : i < s.nextId) :
+    (s.struct i).WF ∧ ∃ s', (buildT (s.struct i)).run s = (.ok i, s') :=
+  ⟨struct_WF h.inv (i + 1) i (by omega) i0 i1, rebuild_raw_id h.inv i0 i1⟩
+
+/-- Every spelling of a Real constant (`int`, `float`, `Fraction`, pair) that denotes `q`
+    returns the same node, in any order, with anything in between. -/
+theorem const_spelling {α : Type} {s : Mgr} (h : Reachable s) {v₁ v₂ : PyNum} {q : Rat}
+    (h₁ : v₁.realValue = .ok q) (h₂ : v₂.realValue = .ok q) (p : Prog α) :
+    ∃ i s₁ s₃, (mkReal v₁).run s = (.ok i, s₁) ∧ (mkReal v₂).run (p.run s₁).2 = (.ok i, s₃) :=
+  real_spelling h.inv h₁ h₂ p
+
+/-- `BV("#b…")`, `BV("01…")` and `SBV(n, w)` are the same calls as `BV(int, width)`. -/
+theorem const_spelling_bv (cs : List Char) {n : Nat} (h : parseBin cs = some n) :
+    mkBV (.str (String.ofList ('#' :: 'b' :: cs))) none = mkBV (.int n) (some cs.length) ∧
+    mkBV (.str (String.ofList cs)) none = mkBV (.int n) (some cs.length) :=
+  ⟨mkBV_str_hash cs h, mkBV_str_plain cs h⟩
+
+theorem const_spelling_sbv {n : Int} {w : Nat} (hw : w ≠ 0) (h1 : -(2 ^ (w - 1) : Int) ≤ n)
+    (h2 : n ≤ (2 ^ (w - 1) : Int) - 1) :
+    mkSBV (.int n) (some w) = mkBV (.int (if n < 0 then (2 ^ w : Int) + n else n)) (some w) := by
+  split
+  next hneg => exact mkSBV_neg hw h1 hneg
+  next hpos => exact mkSBV_nonneg hw (by omega) h2
+
+/-- `Int(v)` / `Real(v)` with an illegal argument (`bool`, `float` for `Int`, `str`…) are
+    rejected in every state: the outcome does not depend on the history (F07 repaired). -/
+theorem const_validation_history_independent (s : Mgr) :
+    (∀ v, (∀ n, v ≠ .int n) → (mkInt v).run s = (.error .typeError, s)) ∧
+    (∀ v e, v.realValue = .error e → (mkReal v).run s = (.error e, s)) :=
+  ⟨fun _ h => mkInt_rejects s h, fun _ _ h => mkReal_rejects s h⟩
+
+/-- The accessors of the node returned by `create_node` report exactly the operator, children
+    and payload it was given, and keep doing so after any further program. -/
+theorem accessors_faithful {α : Type} {s s' : Mgr} (h : Reachable s) {c : Content} {i : Nid}
+    (hc : (create c).run s = (.ok i, s')) (p : Prog α) :
+    s'.content? i = some c ∧ (p.run s').2.content? i = some c := by
+  have h1 := create_content h.inv hc
+  have hp := Prog.run_spec p s' h1.2.1
+  exact ⟨h1.1, content_stable hp.1 hp.2 (content?_mem h1.1)⟩
+
+/-- … and the whole tree below a node never changes either. -/
+theorem structure_stable {α : Type} {s : Mgr} (h : Reachable s) {i : Nid} (i0 : 0 < i) (i1 : i < s.nextId)
+    (p : Prog α) : (p.run s).2.struct i = s.struct i := by
+  have hp := Prog.run_spec p s h.inv
+  exact struct_stable h.inv hp.1 hp.2 (i + 1) i (by omega) i0 i1
+
+/-- `Array` stores exactly the non-default assignments, strictly sorted by address. -/
+theorem array_sorted {s s' : Mgr} (h : Reachable s) {addr : Nid → Nat} {it : Ty} {d i : Nid}
+    {assign : List (Nid × Nid)} (hd : DistinctAddr addr assign)
+    (hrun : (mkArray addr it d assign).run s = (.ok i, s')) :
+    s'.content? i = some ⟨NT.ARRAY_VALUE, d :: flattenPairs (arrayAssignments addr d assign), .ty it⟩ ∧
+    SortedBy addr (arrayAssignments addr d assign) ∧
+    (∀ kv, kv ∈ arrayAssignments addr d assign ↔ kv ∈ assign ∧ kv.2 ≠ d) :=
+  ⟨mkArray_content h.inv hrun, arrayAssignments_sorted hd, fun _ => mem_arrayAssignments⟩
+
+/-- `array_value_get` (binary search by address) = lookup in the assignments, else default. -/
+theorem array_get_correct {s s' : Mgr} (h : Reachable s) {addr : Nid → Nat}
+    (hinj : ∀ a b, addr a = addr b → a = b) {it : Ty} {d i : Nid} {assign : List (Nid × Nid)}
+    (hd : DistinctAddr addr assign) (hrun : (mkArray addr it d assign).run s = (.ok i, s'))
+    (idx : Nid) (hc : s'.isConstant idx = true) :
+    arrayValueGet addr s' i idx = .ok ((lookupKey (arrayAssignments addr d assign) idx).getD d) :=
+  PySMT.Manager.array_get_correct h.inv hinj hd hrun idx hc
+
+/-- every node up to `i` has a content that the public constructors produce (`Normal`: all 66
+    node types with the side conditions the constructors establish — `Not` not over `Not`,
+    `And/Or/Plus/Times/StrConcat` with ≥ 2 children, width payloads equal to the `bv_width` of
+    the child, `ToReal` over a non-constant Int term, `Div` not by a non-zero Real constant,
+    `Pow` with constant exponent and non-constant base, quantifiers over ≥ 1 symbol, function
+    applications of the declared arity, array values sorted by address without default-valued
+    assignments) -/
+def AllNormal (src : Mgr) (addr : Nid → Nat) (same : Bool) (i : Nid) : Prop :=
+  ∀ c k, (c, k) ∈ src.formulae → k ≤ i → Normal src addr same c
+
+/-- `IdentityDagWalker` / `normalize` in the *same* manager creates no node and, if it returns
+    (it fails only when `TypeManager.normalize` or `Symbol` reject a sort/name clash), returns
+    the node it was given. -/
+theorem rebuild_id {s : Mgr} (h : Reachable s) (addr : Nid → Nat) {i : Nid} (i0 : 0 < i)
+    (i1 : i < s.nextId) (hn : AllNormal s addr true i) {r : Except Err Nid} {s' : Mgr}
+    (hrun : (normalize s addr i).run s = (r, s')) :
+    s'.nextId = s.nextId ∧ ∀ j, r = .ok j → j = i :=
+  rebuild_same h.inv addr i0 i1 (fun c k hc hk => recSpec_of_Normal h.inv addr true k (hn c k hc hk)) hrun
+
+/-- `normalize` into a second manager: if it returns `j`, then `j` is a node of the second
+    manager (`0 < j < nextId`, and so is everything below it: `dag_owned`), its tree equals
+    the tree of the source node, and every node created on the way is a copy of a source node.
+    Ids of the two managers are different name spaces: nothing is shared by construction.
+    PARTIAL: formulas containing an array value are excluded (`same = false` admits no
+    `ARRAY_VALUE`): the copy lists the assignments in the *target's* address order, so the
+    trees are equal only up to a permutation of the assignments (finding F35; K and S compare
+    that case modulo the order). -/
+theorem normalize_copy_partial {src tgt : Mgr} (hs : Reachable src) (ht : Reachable tgt) (addr : Nid → Nat)
+    {i : Nid} (i0 : 0 < i) (i1 : i < src.nextId) (hn : AllNormal src addr false i) {r : Except Err Nid}
+    {tgt' : Mgr} (hrun : (normalize src addr i).run tgt = (r, tgt')) :
+    Reachable tgt' ∧ (∀ j, r = .ok j → 0 < j ∧ j < tgt'.nextId ∧ tgt'.struct j = src.struct i) ∧
+    (∀ b, tgt.nextId ≤ b → b < tgt'.nextId → ∃ a, 0 < a ∧ a < src.nextId ∧ tgt'.struct b = src.struct a) := by
+  have hsp := normalize_spec hs.inv addr false i0 i1
+    (fun c k hc hk => recSpec_of_Normal hs.inv addr false k (hn c k hc hk)) ht.inv (by simp) hrun
+  refine ⟨?_, fun j hj => ⟨(hsp.2.2.2 j hj).pos, (hsp.2.2.2 j hj).lt, (hsp.2.2.2 j hj).eq⟩, hsp.2.2.1⟩
+  have := Reachable.step (normalize src addr i) ht
+  rw [hrun] at this
+  exact this
+
+/-- every node below a node of a manager is a node of that manager -/
+theorem dag_owned {s : Mgr} (h : Reachable s) {c : Content} {i : Nid} (hc : (c, i) ∈ s.formulae) :
+    ∀ k ∈ c.ids, 0 < k ∧ k < s.nextId ∧ ∃ ck, (ck, k) ∈ s.formulae := by
+  intro k hk
+  have h1 := h.inv.closed c i hc k hk
+  have h2 := (h.inv.range c i hc).2
+  exact ⟨h1.1, by omega, h.inv.full k h1.1 (by omega)⟩
+
+/-! ## non-vacuity -/
+
+deriving instance DecidableEq for Except
+
+/- The `example`s below evaluate closed terms (concrete managers); `decide +kernel` is plain
+   kernel evaluation of the model here, not a proof technique for a general statement. -/
+
+/-- the hypotheses of `const_spelling` are satisfiable: `1`, `1.0`, `Fraction(1)`, `(2,2)` -/
+example : (PyNum.int 1).realValue = .ok 1 ∧ (PyNum.float 1).realValue = .ok 1 ∧
+    (PyNum.frac 1).realValue = .ok 1 ∧ (PyNum.pair 2 2).realValue = .ok 1 := by decide +kernel
+
+/-- Python's `==` makes `True`, `1`, `1.0`, `Fraction(1)` one dictionary key … -/
+example : (PyNum.bool true).pyEq (.int 1) = true ∧ (PyNum.float 1).pyEq (.int 1) = true ∧
+    (PyNum.frac 1).pyEq (.bool true) = true ∧ (PyNum.pair 1 2).pyEq (.pair 1 2) = true ∧
+    (PyNum.pair 2 4).pyEq (.pair 1 2) = false := by decide +kernel
+
+/-- … which is F07: with the cache consulted before validation, `Int(True)` is rejected in a
+    fresh manager but returns the node of `1` once `Int(1)` exists. -/
+example : (intConstLegacy (.bool true) Mgr.init).1 = .error .typeError ∧
+    (intConstLegacy (.bool true) (intConst (.int 1) Mgr.init).2).1 = .ok 3 := by decide +kernel
+
+/-- the repaired order rejects it in both states -/
+example : (intConst (.bool true) Mgr.init).1 = .error .typeError ∧
+    (intConst (.bool true) (intConst (.int 1) Mgr.init).2).1 = .error .typeError := by decide +kernel
+
+/-- a reachable state with a shared sub-formula: `x`, `y`, `And(x,y)`, again `And(x,y)` -/
+example : ((do let x ← mkSymbol "x" .bool; let y ← mkSymbol "y" .bool
+               let a ← mkAnd [x, y]; let b ← mkAnd [x, y]; let c ← mkAnd [y, x]
+               pure (a, b, c)).run Mgr.init).1 = .ok (5, 5, 6) := by decide +kernel
+
+/-- `AllNormal` holds of that state (so the hypotheses of the two partial theorems are
+    satisfiable on a non-trivial DAG) -/
+example (addr : Nid → Nat) (same : Bool) : AllNormal ((mkAnd [1, 2]).run Mgr.init).2 addr same 3 := by
+  intro c k hc _
+  have : c = trueC ∨ c = falseC ∨ c = ⟨NT.AND, [1, 2], .none⟩ := by
+    simp [mkAnd, mkNary, create, Prog.run, Prim.exec, createNode, Mgr.init, Content.ids, Payload.ids,
+      Mgr.validId, assoc, trueC, falseC] at hc
+    rcases hc with ⟨rfl, _⟩ | ⟨rfl, _⟩ | ⟨rfl, _⟩ <;> simp [trueC, falseC]
+  rcases this with rfl | rfl | rfl
+  · exact .base (.bool true)
+  · exact .base (.bool false)
+  · exact .base (.nary (Or.inl rfl) 1 2 [])
+
+/-- … and on a bit-vector DAG (`x : BV8`, `BVNot(x)`): the width side condition is met -/
+example (addr : Nid → Nat) (same : Bool) :
+    AllNormal ((do let x ← mkSymbol "x" (.bv 8); mkBVUn NT.BV_NOT x).run Mgr.init).2 addr same 4 := by
+  have hs : ((do let x ← mkSymbol "x" (.bv 8); mkBVUn NT.BV_NOT x).run Mgr.init).2.formulae =
+      [(⟨NT.BV_NOT, [3], .nums [8]⟩, 4), (symC "x" (.bv 8), 3), (falseC, 2), (trueC, 1)] := by decide +kernel
+  have hw : ((do let x ← mkSymbol "x" (.bv 8); mkBVUn NT.BV_NOT x).run Mgr.init).2.bvWidth 3 = some 8 := by
+    decide +kernel
+  intro c k hc _
+  rw [hs] at hc
+  simp only [List.mem_cons, Prod.mk.injEq, List.not_mem_nil, or_false] at hc
+  rcases hc with ⟨rfl, _⟩ | ⟨rfl, _⟩ | ⟨rfl, _⟩ | ⟨rfl, _⟩
+  · exact .bvUn (by simp [bvUnNTs]) 3 hw
+  · exact .base (.symbol "x" (.bv 8))
+  · exact .base (.bool false)
+  · exact .base (.bool true)
+
+/-- sorted assignments exist: two distinct keys in either address order -/
+example : SortedBy (fun i => 10 - i) (arrayAssignments (fun i => 10 - i) 9 [(3, 7), (4, 8), (5, 9)]) ∧
+    arrayAssignments (fun i => 10 - i) 9 [(3, 7), (4, 8), (5, 9)] = [(4, 8), (3, 7)] := by
+  constructor
+  · exact arrayAssignments_sorted (by simp [DistinctAddr])
+  · decide +kernel
+
 end PySMT.Props.C04
